@@ -32,7 +32,11 @@ func stdRun(setup func(m *Machine, rec *Recorder), threads func(m *Machine, rec 
 		if setup != nil {
 			setup(m, rec)
 		}
-		s.Drain()
+		if keepPendingOnce {
+			keepPendingOnce = false // background work spawned by the setup takes part in the exploration
+		} else {
+			s.Drain()
+		}
 		Tick()
 		s.Parallel(threads(m, rec)...)
 		obs := obsString(rec.Ops)
@@ -57,7 +61,11 @@ func stdRun(setup func(m *Machine, rec *Recorder), threads func(m *Machine, rec 
 	}
 }
 
-func c04Scenarios() []*Scenario {
+var keepPendingOnce bool
+
+func c04Scenarios() []*Scenario { return c04ScenariosTier("quick") }
+
+func c04ScenariosTier(tier string) []*Scenario {
 	var out []*Scenario
 	add := func(name string, cfg *store.VerifCfg, setup func(m *Machine, rec *Recorder), threads func(m *Machine, rec *Recorder) []func(), reopen bool) {
 		cfg.Name = name
@@ -128,6 +136,47 @@ func c04Scenarios() []*Scenario {
 			func() { m.St.VerifFlush(true) },
 		}
 	}, true)
+	{
+		// S7 (thorough only): two operations per writer: set,set vs delete,set vs two reads (longer histories per thread)
+		if tier != "quick" {
+			add("S7-2ops-per-thread", cfgSched(""), func(m *Machine, rec *Recorder) {
+				rec.Set(0, "a", val(0, 0, "a", 0))
+			}, func(m *Machine, rec *Recorder) []func() {
+				return []func(){
+					func() { rec.Set(1, "a", val(1, 0, "a", 0)); rec.Set(1, "a", val(1, 1, "a", 0)) },
+					func() { rec.Del(2, "a"); rec.Set(2, "a", val(2, 1, "a", 0)) },
+					func() { rec.Get(3, "a"); rec.Get(3, "a") },
+				}
+			}, true)
+		}
+		// S8: two writers whose records both need the rotation (only one more fits): rotation + spawned flush x2
+		add("S8-two-writers-at-rotation", cfgSched(""), func(m *Machine, rec *Recorder) {
+			rec.Set(0, "a", val(0, 0, "a", 0))
+		}, func(m *Machine, rec *Recorder) []func() {
+			return []func(){
+				func() { rec.Set(1, "b", val(1, 0, "b", 0)) },
+				func() { rec.Set(2, "c", val(2, 0, "c", 0)) },
+				func() { rec.Get(3, "a"); rec.Get(3, "b"); rec.Get(3, "c") },
+			}
+		}, true)
+		// S9: a store that was restarted (tree loaded, older chunks' hints swept by the post-open goroutine) vs writer vs reader
+		add("S9-after-restart-sweep", cfgSched(""), func(m *Machine, rec *Recorder) {
+			rec.Set(0, "a", val(0, 0, "a", 0))
+			rec.Set(0, "b", val(0, 1, "b", 0))
+			rec.Set(0, "c", val(0, 2, "c", 0))
+			m.S.Drain()
+			m.St.Close()
+			m.Exit()
+			m.Open() // the sweep goroutine of the new process stays pending and takes part in the exploration
+			rec.st = m.St
+			keepPendingOnce = true
+		}, func(m *Machine, rec *Recorder) []func() {
+			return []func(){
+				func() { rec.Set(1, "a", val(1, 0, "a", 0)) },
+				func() { rec.Get(3, "a"); rec.Get(3, "b") },
+			}
+		}, true)
+	}
 	return out
 }
 
@@ -147,12 +196,12 @@ func runScenarios(job *Job, r *Report, scs []*Scenario, bounds []int, relBound i
 
 func C04(job *Job, r *Report) {
 	r.Level = "model_checking"
-	r.Rule = "stateless model checking of the real store under a controlled cooperative scheduler: for each of 6 scenarios (2-4 threads on 1-3 keys forced into one leaf/file: writers+reader; set/delete/read of a flushed key; C-allocated value vs forced flush vs reader; data-file rotation with spawned flush + periodic flusher + reader; hint-split rotation + dumper + reader + reopen; two buckets + flusher) EVERY interleaving at lock acquisitions, file-system calls, goroutine spawns and waits with at most N preemptions (quick 2, thorough 3; non-preempting switches unbounded) is executed, plus every interleaving with lock releases as additional scheduling points at a smaller bound; each execution's recorded call/return history is checked against the statement (reads return a stored value not older than the latest write acknowledged before they began; accepted writes have distinct versions in real-time order; final state holds the highest version; again after exit+reopen); states = distinct observation vectors (history with logical call/return times)"
+	r.Rule = "stateless model checking of the real store under a controlled cooperative scheduler: for each of 8 scenarios (thorough: 9, adding two operations per thread) (2-4 threads on 1-3 keys forced into one leaf/file: writers+reader; set/delete/read of a flushed key; C-allocated value vs forced flush vs reader; data-file rotation with spawned flush + periodic flusher + reader; hint-split rotation + dumper + reader + reopen; two buckets + flusher; two writers meeting at the rotation; a restarted store whose post-open hint sweep is still pending vs writer vs reader) EVERY interleaving at lock acquisitions, file-system calls, goroutine spawns and waits with at most N preemptions (quick 2, thorough 3; non-preempting switches unbounded) is executed, plus every interleaving with lock releases as additional scheduling points at a smaller bound; each execution's recorded call/return history is checked against the statement (reads return a stored value not older than the latest write acknowledged before they began; accepted writes have distinct versions in real-time order; final state holds the highest version; again after exit+reopen); states = distinct observation vectors (history with logical call/return times)"
 	r.Assumptions = []string{"sequentially consistent interleavings at synchronisation/file-system granularity; unsynchronised accesses are covered by the separate free-running -race pass only", "cgo calls atomic", "concurrent incr excluded (as the property says)"}
 	bound, rel := 2, 1
 	if job.Tier != "quick" {
 		bound, rel = 3, 2
 	}
-	runScenarios(job, r, c04Scenarios(), []int{bound}, rel)
+	runScenarios(job, r, c04ScenariosTier(job.Tier), []int{bound}, rel)
 	r.Bounds["preemption_bound_completed"] = bound
 }
